@@ -72,8 +72,11 @@ package syntax
 //@ ghost func SetOK(p *CharSet) bool
 //@ spec func SetOKv(c CharSet) bool = RangesSorted(c.ranges) && (forall i int :: 0 <= i && i < len(c.categories) ==> CatKnown(c.categories[i].Cat)) &&
 //@     (c.sub != nil ==> SetOK(c.sub)) && AsciiAgrees(c)
-//@ axiom setok-unfold: forall p *CharSet :: p != nil && SetOK(p) ==> SetOKv(*p)
-//@ axiom memberp-def:  forall p *CharSet, ch rune :: p != nil ==> MemberP(p, ch) == Member(*p, ch)
+//@ axiom setok-unfold: forall p *CharSet {SetOK(p)} :: p != nil && SetOK(p) ==> SetOKv(*p)
+// Subtraction chains are finite (the parser builds them as a tree): SubDepth strictly decreases along .sub
+//@ ghost func SubDepth(p *CharSet) int
+//@ axiom subdepth: forall p *CharSet {SubDepth(p)} :: p != nil ==> SubDepth(p) >= 0 && (p.sub != nil ==> SubDepth(p.sub) < SubDepth(p))
+//@ axiom memberp-def:  forall p *CharSet, ch rune {MemberP(p, ch)} :: p != nil ==> MemberP(p, ch) == Member(*p, ch)
 
 // The ASCII bitmap, when present, caches exactly the general lookup for runes below 128.
 //@ spec func BitmapHas(bm *asciiBitmap, ch rune) bool = band(bm.bits[ch/64], pow2(ch % 64)) != 0
@@ -83,3 +86,20 @@ package syntax
 //@   props C16
 //@   requires SetOKv(c)
 //@   ensures res == Member(c, ch)
+
+// prepareASCIIBitmap builds the cache the fast path of CharIn relies on: afterwards the bitmap agrees with the
+// general lookup on every rune below 128 (and the set denotes the same members as before).
+//@ func (c *CharSet) prepareASCIIBitmap()
+//@   props C16
+//@   requires c != nil ==> RangesSorted(c.ranges) && (forall i int :: 0 <= i && i < len(c.categories) ==> CatKnown(c.categories[i].Cat)) && (c.sub != nil ==> SetOK(c.sub))
+//@   modifies objs(CharSet).ascii
+//@   ensures[frame] c != nil ==> forall q *CharSet {SubDepth(q)} :: old(allocated(q)) && q != c && SubDepth(q) >= SubDepth(c) ==> q.ascii == old(q.ascii)
+//@   ensures c != nil ==> c.ascii != nil
+//@   ensures c != nil && old(c.ascii) != nil ==> c.ascii == old(c.ascii)
+//@   ensures[agrees] c != nil && old(c.ascii) == nil ==> fresh(c.ascii) && forall a rune :: 0 <= a && a < 128 ==> BitmapHas(c.ascii, a) == Member(*c, a)
+//@   loop 0:
+//@     invariant 0 <= i && i < 128 && c != nil && c.ascii == nil && bm != nil && fresh(bm)
+//@     invariant forall a rune :: 0 <= a && a < i ==> BitmapHas(bm, a) == Member(*c, a)
+//@     invariant forall a rune :: i <= a && a < 128 ==> !BitmapHas(bm, a)
+//@     invariant 0 <= bm.bits[0] && bm.bits[0] < 18446744073709551616 && 0 <= bm.bits[1] && bm.bits[1] < 18446744073709551616
+//@     decreases 128 - i
